@@ -45,7 +45,7 @@ pub fn class_of_label(label: &str) -> Class {
         Class::Agg
     } else if label.starts_with("Join") {
         Class::Join
-    } else if ["SplitBranch", "RouteBranch", "Merge", "Zip", "ZipPairs", "Broadcast", "BroadcastRaw"].contains(&label) {
+    } else if ["SplitBranch", "RouteBranch", "Merge", "Zip", "ZipPairs", "Broadcast", "BroadcastRaw", "SplitZip"].contains(&label) {
         Class::Fan
     } else {
         Class::Result
